@@ -247,7 +247,101 @@ def run_case(structure):
     except Exception as err:  # noqa: B902
         error = err
     log = list(factories.LOG)
-    return judge(structure, result, error, log, ConfigurationError)
+    verdict = judge(structure, result, error, log, ConfigurationError)
+    if verdict is not None:
+        return verdict
+    # the hierarchy that was translated is still the hierarchy: translating is not allowed to
+    # consume its input (a second translation - or a sub-tree shared through a YAML alias -
+    # must again call every factory)
+    if not same_plain(given, structure):
+        return ("input-modified", "translate_hierarchy changed its input from %r to %r"
+                % (structure, given))
+    del factories.LOG[:]
+    again = None
+    try:
+        Translator().translate_hierarchy(given)
+    except Exception as err:  # noqa: B902
+        again = err
+    if [entry[:2] for entry in factories.LOG] != [entry[:2] for entry in log] or \
+            (again is None) != (error is None):
+        return ("second-translation-differs",
+                "translating the same hierarchy again called %r, the first time %r"
+                % ([entry[:2] for entry in factories.LOG], [entry[:2] for entry in log]))
+    return None
+
+
+def same_plain(got, want):
+    """Structural equality of two configuration hierarchies (type-faithful)"""
+    if type(got) is not type(want):
+        return False
+    if isinstance(want, dict):
+        return list(got) == list(want) and all(same_plain(got[k], want[k]) for k in want)
+    if isinstance(want, list):
+        return len(got) == len(want) and all(same_plain(a, b) for a, b in zip(got, want))
+    return got == want or (got != got and want != want)
+
+
+# ---------------------------------------------------------------------------------------
+# pipelines: the same location rule through the pipeline translator (load_pipeline)
+
+PIPE_FAULTS = ("raise", "noattr", "nomod", "child-raise", "child-list-raise")
+
+
+def pipeline_case(size, position, fault, forms):
+    """A pipeline of ``size`` __type__ elements, the one at ``position`` faulty;
+    returns (content, expected path tokens)"""
+    content = []
+    expected = None
+    for index in range(size):
+        element = {"__type__": factory_name("fn", index), "a": index}
+        if index == position:
+            if fault in ("raise", "noattr", "nomod"):
+                element["__type__"] = factory_name(fault, index)
+                expected = [("index", index)]
+            elif fault == "child-raise":
+                element["b"] = {"__type__": factory_name("raise", 7)}
+                expected = [("index", index), ("key", "b")]
+            else:
+                element["b"] = [1, {"c": {"__type__": factory_name("raise", 7)}}]
+                expected = [("index", index), ("key", "b"), ("index", 1), ("key", "c")]
+        content.append(element)
+    return content, expected
+
+
+def run_pipeline_case(case):
+    from cobald.daemon.config.mapping import ConfigurationError
+    from cobald.daemon.core.config import load_pipeline
+    import vlib.c19_factories as factories
+
+    content, expected = pipeline_case(*case)
+    del factories.LOG[:]
+    try:
+        load_pipeline(clone(content))
+    except ConfigurationError as err:
+        got = tokenise(err.where) if isinstance(err.where, str) else None
+        if got != tuple(expected):
+            return ("pipeline:where:wrong-location",
+                    "pipeline %r: the failing element is at %s, reported where=%r"
+                    % (content, show(expected), err.where))
+        return None
+    except Exception as err:  # noqa: B902
+        return ("pipeline:failure:not-a-configuration-error",
+                "pipeline %r raised %s: %s" % (content, type(err).__name__, err))
+    return ("pipeline:failure-expected:no-error", "pipeline %r loaded" % (content,))
+
+
+def shard_pipeline(args):
+    (size,) = args
+    acc = Acc()
+    for position in range(size):
+        for fault in PIPE_FAULTS:
+            case = (size, position, fault, None)
+            verdict = run_pipeline_case(case)
+            acc.case(nontrivial_key=repr(case), sample=list(case) if position == 1 else None)
+            acc.outcome(("pipeline", verdict is None))
+            if verdict is not None:
+                acc.violation(verdict[0], verdict[1], {"pipeline": list(case)})
+    return acc
 
 
 def judge(structure, result, error, log, error_type):
@@ -383,6 +477,7 @@ def run(ctx):
     ctx.pmap(shard, [(size, 0, 1, False) for size in (1, 2, 3)])
     ctx.pmap(shard, [(4, part, 16, False) for part in range(16)])
     ctx.pmap(shard, [(5, part, 96, False) for part in range(96)])
+    ctx.pmap(shard_pipeline, [(size,) for size in range(1, 6 if ctx.quick else 8)])
     if reduced_size:
         ctx.pmap(shard, [(reduced_size, part, 256, True) for part in range(256)])
     ctx.meta.update(
@@ -402,6 +497,11 @@ def run(ctx):
                 "factories": list(FULL[1:]), "scalars": list(SCALARS)},
     )
     ctx.assumptions += [
+        "translating does not consume its input: the hierarchy is unchanged afterwards and a "
+        "second translation calls the same factories (sub-trees shared through YAML aliases "
+        "depend on this)",
+        "pipelines: __type__ elements with a failing element / nested child at every "
+        "position, through load_pipeline; only the reported location is compared",
         "mapping keys are simple identifiers (a key containing '.' or '[' makes the "
         "reported path ambiguous by construction); __args__ is a list",
         "no order is demanded between the items of one mapping: only 'children before "
@@ -414,5 +514,8 @@ def run(ctx):
 
 
 def replay(data):
+    if "pipeline" in data:
+        verdict = run_pipeline_case(tuple(data["pipeline"]))
+        return None if verdict is None else "%s: %s" % verdict
     verdict = run_case(data["tree"])
     return None if verdict is None else "%s: %s" % verdict
